@@ -311,3 +311,88 @@ Proof.
     destruct (1 =? f); [injection H as <-; vm_compute; discriminate|discriminate H]. }
   cbv zeta. rewrite Hws. rewrite E in Hc. vm_compute in Hc. injection Hc as Ew. rewrite <- Ew. vm_compute. repeat split.
 Qed.
+
+(* ------------------------------------------------------------------------------------------ *)
+(** * The remaining handlers, from validity in C17's vocabulary ([range_valid ws], what C17 concludes), so that they
+      compose with any C17 statement about the corresponding query of PipelineAll (q_links, q_inlay, q_outline) as
+      soon as it exists; folding needs no validity at all and is composed with PipelineAll.q_folding here. *)
+From TG.Model Require PipelineAll.
+
+Fixpoint sym_valid (ws : list wtext) (f : N) (s : dsym) : Prop :=
+  match s with
+  | DSym r ch => range_valid ws (mkFR f (fst r) (snd r)) = true /\
+                 (fix all (l : list dsym) : Prop := match l with [] => True | x :: xs => sym_valid ws f x /\ all xs end) ch
+  end.
+
+Lemma sym_valid_ok ws f : forall s, sym_valid ws f s -> sym_ok (content_of ws) (N.to_nat f) s.
+Proof.
+  fix IH 1. intros [r ch] [Hr Hch]. cbn [sym_ok]. split.
+  - destruct (valid_range_ok _ _ Hr) as (_ & _ & _ & Hok & _). unfold loc_of in Hok. cbn [fst snd fr_file fr_lo fr_hi] in Hok.
+    destruct r. exact Hok.
+  - induction ch as [|x xs IHch]; [exact I|]. destruct Hch as [Hx Hxs]. split; [apply IH; exact Hx|apply IHch; exact Hxs].
+Qed.
+
+Section Valid.
+Variable ws : list wtext.
+Hypothesis Hsmall : small_ws ws.
+Let content := content_of ws.
+
+Theorem valid_document_link (f : N) (l : list (rng * file)) :
+  (forall x, In x l -> range_valid ws (mkFR f (fst (fst x)) (snd (fst x))) = true) ->
+  h_document_link content (N.to_nat f) (Some l) =
+    Ok (Some (map (fun x => (spec_range content (N.to_nat f) (fst x), snd x)) l)) /\
+  forall x, In x l -> denotes ws (mkFR f (fst (fst x)) (snd (fst x))) (spec_range content (N.to_nat f) (fst x)).
+Proof.
+  intros H. split.
+  - apply c09_document_link; [apply small_content; exact Hsmall|].
+    intros x Hin. destruct (valid_range_ok _ _ (H x Hin)) as (_ & _ & _ & Hok & _).
+    unfold loc_of in Hok. cbn [fst snd fr_file fr_lo fr_hi] in Hok. destruct (fst x). exact Hok.
+  - intros x Hin. pose proof (valid_denotes ws _ Hsmall (H x Hin)) as Hd.
+    unfold loc_of in Hd. cbn [fst snd fr_file fr_lo fr_hi] in Hd. destruct (fst x). exact Hd.
+Qed.
+
+Theorem valid_inlay_hint (f : N) (l : list N) :
+  (forall o, In o l -> range_valid ws (mkFR f o o) = true) ->
+  h_inlay_hint content (N.to_nat f) (Some l) = Ok (Some (map (pos_of (content (N.to_nat f))) l)) /\
+  forall o, In o l -> exists t, fmap_get ws f = Some t /\ content (N.to_nat f) = t /\ o <= bytes t /\ faithful t o.
+Proof.
+  intros H. split.
+  - apply c09_inlay_hint; [apply small_content; exact Hsmall|].
+    intros o Hin. destruct (valid_range_ok _ _ (H o Hin)) as (_ & _ & _ & (Hok & _) & _). exact Hok.
+  - intros o Hin. destruct (valid_range_ok _ _ (H o Hin)) as (t & Hg & Hc & (Hb & _) & _ & Hhi).
+    exists t. split; [exact Hg|]. split; [exact Hc|]. split; [exact Hhi|].
+    apply position_faithful; [exact (Hsmall _ _ Hg)|]. unfold loc_of in Hb, Hc. cbn [fst snd fr_file fr_lo] in Hb, Hc.
+    fold content in Hc. rewrite <- Hc. exact Hb.
+Qed.
+
+Theorem valid_document_symbol (f : N) (l : list dsym) :
+  (forall s, In s l -> sym_valid ws f s) ->
+  h_document_symbol content (N.to_nat f) (Some l) = Ok (Some (map (spec_symbol content (N.to_nat f)) l)).
+Proof.
+  intros H. apply c09_document_symbol; [apply small_content; exact Hsmall|].
+  intros s Hin. apply sym_valid_ok. apply H. exact Hin.
+Qed.
+
+(** folding ranges only send line numbers: no validity needed; every line sent exists *)
+Theorem valid_folding_range (f : N) (l : list rng) :
+  h_folding_range content (N.to_nat f) (Some l) = Ok (Some (map (spec_lines content (N.to_nat f)) l)) /\
+  forall r, In r l -> fst (spec_lines content (N.to_nat f) r) <= count_terms (content (N.to_nat f)) /\
+                      snd (spec_lines content (N.to_nat f) r) <= count_terms (content (N.to_nat f)).
+Proof.
+  split; [apply c09_folding_range; apply small_content; exact Hsmall|].
+  intros r _. unfold spec_lines, pos_of. cbv zeta. cbn [fst snd]. split; apply line_of_le_terms.
+Qed.
+
+End Valid.
+
+(** the folding answer of the complete model analysis (group bridge: PipelineAll.analyze_all / q_folding) *)
+Theorem pipeline_all_folding (pfuel cfuel : nat) (files : list (text * text)) (root : text)
+    (A : PipelineAll.all_answers) (f : N) (l : list (N * N)) :
+  PipelineAll.analyze_all pfuel cfuel files root = Some A -> PipelineAll.q_folding A f = Some l ->
+  let ws := BridgeSymbol.an_texts (PipelineAll.aa_an A) in
+  let content := content_of ws in
+  small_ws ws ->
+  h_folding_range content (N.to_nat f) (Some l) = Ok (Some (map (spec_lines content (N.to_nat f)) l)) /\
+  forall r, In r l -> fst (spec_lines content (N.to_nat f) r) <= count_terms (content (N.to_nat f)) /\
+                      snd (spec_lines content (N.to_nat f) r) <= count_terms (content (N.to_nat f)).
+Proof. intros _ _ ws content Hs. exact (valid_folding_range ws Hs f l). Qed.
